@@ -3,7 +3,7 @@ import Modbus.Lemmas.Reception4
 C10 — incremental reception: prefixes are 'incomplete', the full frame is found at (0, length),
 and appended bytes do not change the result.
 
-`Good scanf f x` (Lemmas/Reception.lean) *is* the property for one frame `f` with content `x`:
+`Reception.Good scanf f x` (Lemmas/Reception.lean) *is* the property for one frame `f` with content `x`:
 
   pos   : 1 ≤ f.length
   whole : ∀ rest, scanf (f ++ rest) = ok (some (x, ⟨0, f.length⟩))      -- found; stable under any suffix
@@ -32,6 +32,7 @@ theorem scan_prefix_none {F : Type} (att : Attempt F) (p : Bytes)
 theorem scan_one_byte {F : Type} (att : Attempt F) (p : Bytes) (h1 : p.length = 1) :
     scan att p = .ok none := Reception.scan_one_byte att p h1
 
+example : ([0x01] : Bytes).length = 1 := rfl
 example : Rtu.attemptRsp [0x01, 0x03, 0x02] = .ok none ∧ 2 ≤ [0x01, 0x03, 0x02].length := by decide +kernel
 example : Rtu.attemptRsp [0x01, 0x83, 0x02, 0xC0, 0xF1, 0x55] = .ok (some (⟨0x01, [0x83, 0x02]⟩, 5)) := by
   decide +kernel
@@ -151,6 +152,10 @@ theorem rtu_req_wellformed_partial (f : Bytes) (h : Spec.WellFormedRtu .req f)
 
 example : Spec.WellFormedTcp .req (Spec.tcpFrame 7 1 [0x01, 0x00, 0x01, 0x00, 0x02]) :=
   ⟨7, 1, _, by unfold Spec.PduComplete; decide, by decide, rfl⟩
+example : Spec.WellFormedTcp .rsp (Spec.tcpFrame 7 1 [0x18, 0x00, 0x02, 0xAA, 0xBB]) :=
+  ⟨7, 1, _, by unfold Spec.PduComplete; decide, by decide, rfl⟩
+example : Spec.WellFormedRtu .rsp [0x01, 0x83, 0x02, 0xC0, 0xF1] :=
+  ⟨0x01, [0x83, 0x02], by unfold Spec.PduComplete; decide, by decide +kernel⟩
 example : Spec.WellFormedRtu .req [0x11, 0x03, 0x00, 0x6B, 0x00, 0x03, 0x76, 0x87] :=
   ⟨0x11, [0x03, 0x00, 0x6B, 0x00, 0x03], by unfold Spec.PduComplete; decide, by decide +kernel⟩
 
